@@ -52,13 +52,17 @@ def items(tier, seed):
     yield from spaces.mk(['flat123'], force='none', job_open=JOB,
                          top_open={'timeout': [0, 1, 2, 3], 'window': [1],
                                    'sdt': [0, 2, None], 'k': ['nest']},
-                         nest_open={}, k=3 if th else 2, bound=2)
+                         nest_open={}, k=2, bound=3 if th else 2)
     # parent ends at every instant 0..4 by timeout, while the nested run is
     # in each of its phases
-    yield from spaces.mk(['nest21', 'nest22'], force='product',
+    yield from spaces.mk(['nest21'], force='product',
                          fargs=tstretch('top', (0, 1, 2, 3, 4)),
                          job_open=INNER, top_open={'sdt': [0, 2], 'window': [1]},
                          nest_open=NEST, k=2 if th else 1, bound=2)
+    yield from spaces.mk(['nest22'], force='product',
+                         fargs=tstretch('top', (0, 1, 2, 3, 4)),
+                         job_open=INNER, top_open={'sdt': [0, 2], 'window': [1]},
+                         nest_open=NEST, k=1, bound=3 if th else 2)
     yield from spaces.mk(['nest32'], force='product',
                          fargs=tstretch('top', (0, 1, 2, 3, 4)),
                          job_open=INNER, top_open={'sdt': [0, 2], 'window': [1]},
